@@ -6,7 +6,16 @@ Import ListNotations.
 From Cffi Require Import C19.Model C19.Spec C19.Proofs.
 Open Scope Z_scope.
 
-(* History theorem.  A buffer over the n bytes at offset off of any memory, any sequence of
+(* Scope of the specification (recorded reading, DESIGN.md Appendix B): C19/Spec.v is the semantics of
+   a Python bytearray of length n MINUS extended slices and MINUS length-changing assignments: a
+   step other than 1/None is refused with TypeError (step 0 with ValueError, as bytearray does), a
+   slice assignment of a different length with ValueError, `del` with TypeError; items are read as
+   length-1 bytes and assigned from length-1 bytes objects; right-hand sides must be bytes-like.  A
+   refusal changes no byte.  That Spec.v agrees with CPython's bytearray on everything else is
+   checked on every run: tools/props/c19.py evaluates spec_run and a real bytearray on the same
+   histories (correspondence "C19.Spec.spec_run vs CPython bytearray").
+
+   History theorem.  A buffer over the n bytes at offset off of any memory, any sequence of
    operations (reads by index or slice, item and slice assignments from any Python value, deletions,
    len; any Python ints/None as bounds and steps): the outcomes (values, exception classes) are those
    of the same history on a Python bytearray holding the window, and the memory afterwards is the old
@@ -36,7 +45,11 @@ Theorem C19_slice_bounds : forall n a b s, 0 <= n <= SSIZE_MAX -> step_ok s = Ok
 Proof. exact unpack_adjust_step1. Qed.
 Print Assumptions C19_slice_bounds.
 
-(* ffi.from_buffer("T[]", obj): len(obj) // sizeof(T) items; "T[k]": ValueError when too small *)
+(* ffi.from_buffer("T[]", obj): len(obj) // sizeof(T) items; "T[k]": ValueError when too small.
+   The two boolean arguments of from_buffer_length are is_unicode (obj is a str: refused) and
+   has_buffer (obj exports a contiguous buffer); the theorems fix them to false / true = a bytes-like
+   object.  That the resulting cdata ALIASES obj's memory (same address, writes visible both ways)
+   is not a statement about this model; it is checked on the real objects by the harness only. *)
 Theorem C19_from_buffer_open_array : forall isz buflen, 0 < isz -> 0 <= buflen ->
   from_buffer_length (FOpenArray isz) false true buflen = Ok (buflen / isz).
 Proof. exact from_buffer_open_array. Qed.
@@ -48,7 +61,9 @@ Theorem C19_from_buffer_fixed_array : forall len isz buflen,
 Proof. exact from_buffer_fixed_array. Qed.
 Print Assumptions C19_from_buffer_fixed_array.
 
-(* ffi.memmove(dst, src, n) on one memory, any overlap: the n destination bytes become the OLD n
+(* ffi.memmove(dst, src, n): dest and src are offsets into ONE flat memory (operands in different
+   objects are the non-overlapping special case); which kinds of operands (cdata pointers, array
+   views, memoryviews, bytes) reach the same memmove call is covered by the harness.  Any overlap: the n destination bytes become the OLD n
    source bytes, everything else is unchanged *)
 Theorem C19_memmove : forall mem dest src n,
   0 <= dest -> 0 <= src -> 0 <= n -> src + n <= zlen mem -> dest + n <= zlen mem ->
